@@ -34,6 +34,8 @@ macro_rules! dispatch {
             "C04" => driver::$f::<props::c04::C04>($($arg),*),
             "C05" => driver::$f::<props::c05::C05>($($arg),*),
             "C06" => driver::$f::<props::c06::C06>($($arg),*),
+            "C07" => driver::$f::<props::c07::C07>($($arg),*),
+            "C09" => driver::$f::<props::c09::C09>($($arg),*),
             "C15" => driver::$f::<props::c15::C15>($($arg),*),
             "C19" => driver::$f::<props::c19::C19>($($arg),*),
             "C20" => driver::$f::<props::c20::C20>($($arg),*),
